@@ -223,6 +223,7 @@ func C17(c *Ctx) {
 	c.mailRecipients()
 	c.registerWhitelist()
 	c.errorHandlerURL()
+	c.ctxDataReadOnly("C17.ctx-data")
 }
 
 func lineOf(c *Ctx, i ssa.Instruction) int {
@@ -359,10 +360,23 @@ func (c *Ctx) registerWhitelist() {
 
 func (c *Ctx) errorHandlerURL() {
 	r := c.R
-	fn := c.P.FuncOpt("(ab/defaults.errorHandler).ServeHTTP")
-	if fn == nil {
-		return
+	if c.P.FuncOpt("(ab/defaults.errorHandler).ServeHTTP") == nil {
+		r.Info("C17.error-log", "ab/defaults", "errorHandler", "-", "default error handler not present")
 	}
+	total := 0
+	for _, fn := range c.P.Funcs {
+		total += c.urlLog(fn)
+	}
+	r.Extra["log_calls_checked_for_url_parts"] = total
+	if total < 40 {
+		r.Unknown("C17.error-log", "", "census", "-", sprintf("only %d log calls found in the library (confirmed by hand: more than 60)", total))
+	}
+}
+
+// urlLog: no log line of fn carries a part of the request URL that can hold
+// a mailed token (the query, the full URL, the parsed form).
+func (c *Ctx) urlLog(fn *ssa.Function) int {
+	r := c.R
 	name := FuncName(fn)
 	n := 0
 	for _, call := range Calls(fn) {
@@ -415,9 +429,77 @@ func (c *Ctx) errorHandlerURL() {
 			}
 			find(a, 0)
 		}
-		r.Check(leak == "", "C17.error-log", name, "log line", posf(c, call), "logs no query-bearing part of the URL", "the default error handler logs "+leak+": the query of the mail-link routes carries the mailed, still valid token")
+		if leak != "" {
+			r.Bad("C17.error-log", name, "log line", posf(c, call), "this log line carries "+leak+": the query of the mail-link routes (confirm, recover, 2FA e-mail verify) holds the mailed, still valid token")
+		} else if strings.HasSuffix(name, "errorHandler).ServeHTTP") {
+			r.Ok("C17.error-log", name, "log line", posf(c, call), "logs no query-bearing part of the URL")
+		}
 	}
-	if n == 0 {
-		r.Info("C17.error-log", name, "log line", "-", "error handler does not log")
+	return n
+}
+
+// ctxDataReadOnly: the data object a middleware attached to the request
+// (CTXKeyData) may be shared by several steps — and, when the application
+// injects one map into every request, by several clients. The mail and
+// response paths merge it INTO their own data; merging the other way round
+// leaves the mailed token link behind in an object that outlives the mail.
+func (c *Ctx) ctxDataReadOnly(rule string) {
+	r := c.R
+	n := 0
+	for _, fn := range c.P.Funcs {
+		name := FuncName(fn)
+		// functions that (re-)install the object into the request context are the
+		// ones whose job is to add request-scoped data to it (MergeDataInRequest,
+		// ModuleListMiddleware): they write it by design
+		installs := false
+		for _, wv := range CallsTo(fn, "context.WithValue") {
+			if k, isC := ConstStr(stripMI(Arg(wv, 1))); isC && k == "data" {
+				installs = true
+			}
+		}
+		if installs {
+			continue
+		}
+		for _, call := range CallsTo(fn, fnCtxValue) {
+			if k, isC := ConstStr(ctxKeyArg(call)); !isC || k != "data" {
+				continue
+			}
+			n++
+			bad, at := "", posf(c, call)
+			seen := map[ssa.Value]bool{}
+			var walk func(v ssa.Value, d int)
+			walk = func(v ssa.Value, d int) {
+				if v == nil || seen[v] || d > 6 || v.Referrers() == nil {
+					return
+				}
+				seen[v] = true
+				for _, ref := range *v.Referrers() {
+					switch x := ref.(type) {
+					case *ssa.TypeAssert:
+						walk(x, d+1)
+					case *ssa.Extract:
+						walk(x, d+1)
+					case *ssa.Phi:
+						walk(x, d+1)
+					case *ssa.ChangeType:
+						walk(x, d+1)
+					case *ssa.MapUpdate:
+						if x.Map == v {
+							bad, at = "written directly", posf(c, x)
+						}
+					case *ssa.Call:
+						cn := Callee(x)
+						if (cn == "(ab.HTMLData).Merge" || cn == "(ab.HTMLData).MergeKV") && len(x.Call.Args) > 0 && x.Call.Args[0] == v {
+							bad, at = "receiver of "+cn+", which writes its receiver", posf(c, x)
+						}
+					}
+				}
+			}
+			walk(call.Value(), 0)
+			r.Check(bad == "", rule, name, "request data object read only", at, "merged into the step's own data, never written", "the request's shared data object (CTXKeyData) is "+bad+": what this step adds (for mails: the token link) stays in an object other steps and, with application-wide data, other clients render")
+		}
+	}
+	if n < 2 {
+		r.Unknown(rule, "", "census", "-", sprintf("only %d readers of the request data object found (confirmed by hand: 2 outside MergeDataInRequest)", n))
 	}
 }
